@@ -22,7 +22,7 @@ from . import c03
 ID = "C05"
 LEVEL = "fault_enumeration"
 TECHNIQUE = "exhaustive crash-point enumeration: fork, kill at file-system event k (torn writes), real resume with cleanup=False; depth-2 crash sequences; every user-function call as raise/kill point"
-RULE = ("pipelines of C03's family x storage {file_array, dict+persist, shared_memory_dict+persist, mix} x start state {no folder, folder of a previous "
+RULE = ("pipelines of C03's family (the all-None-elements pipeline: fresh start, file_array and dict only) x storage {file_array, dict+persist, shared_memory_dict+persist, mix} x start state {no folder, folder of a previous "
         "complete run (cleanup=True interrupted)} x {sequential, parallel code path through the deferred executor with its default schedule} x EVERY file-system event of the run (mkdir, open-for-write, every write call with torn fractions, close, "
         "rename, unlink, rmdir) as the death point; quick coalesces the ~80 tiny json writes of run_info.json to {first, middle, last}; every (function, call "
         "index) as raise and as kill point; thorough: all events, fractions {0,1/4,1/2,3/4}, and a second crash at every event of the resumed run. "
